@@ -1,5 +1,6 @@
 """C12: config selection (FindConfig) and directory loading (LoadDeviceConfigs / loadDirectory)."""
 import copy, itertools, json, random, re
+import zlib
 from common import *
 
 ORDER = ["fg", "fk", "ug", "uk"]                       # LoadDeviceConfigs' loading order
@@ -118,7 +119,12 @@ class Gen:
         else:
             content = broken_text(self.rng, idt, marker, kind)
         self.count("file:" + ("valid" if kind == "valid" else "broken:" + kind))
-        return {"t": "f", "name": name, "content": content, "h": h, "mode0": mode0, "kind": kind, "id": list(idt)}
+        # one file in six is present as a symbolic link to a regular file kept outside the hidi-config tree (the dotfiles-manager
+        # layout): opening follows the link, so for the loader it is the file; decided by the content, not by another random draw
+        link = (not mode0) and zlib.crc32(content.encode("utf-8", "surrogatepass")) % 6 == 0
+        if link:
+            self.count("file:present as a symlink to a regular file")
+        return {"t": "f", "name": name, "content": content, "h": h, "mode0": mode0, "kind": kind, "id": list(idt), "link": link}
 
     def empty_case(self, tags):
         return {"roots": {d: {"state": "dir", "node": {"t": "d", "name": ROOTNAME[d], "ch": [], "mode0": False}} for d in ORDER},
@@ -334,7 +340,13 @@ def case_ops(case):
         ops.append({"op": "mkdir", "path": path})
 
     def emit(node, path):
-        if node["t"] == "f":
+        if node["t"] == "f" and node.get("link"):
+            if not any(o["path"] == "linktargets" for o in ops):
+                ops.append({"op": "mkdir", "path": "linktargets"})
+            tgt = "linktargets/f%d-%s" % (node["h"], "real.toml")
+            ops.append({"op": "write", "path": tgt, "content": node["content"]})
+            ops.append({"op": "symlink", "path": path, "content": os.path.relpath(tgt, os.path.dirname(path))})
+        elif node["t"] == "f":
             ops.append({"op": "write", "path": path, "content": node["content"]})
             if node.get("mode0"):
                 ops.append({"op": "chmod", "path": path, "mode": 0})
